@@ -158,6 +158,8 @@ def main():
         inputs.append(faultgen.clash_modules(rng.fork("clash%d" % i)))
     for src in faultgen.cast_programs():
         inputs.append([("c.pn", src)])
+    for src in faultgen.constant_hazards():
+        inputs.append([("k.pn", src)])
     # the forwarding and address matrices of C08 (writes through every kind of parameter, `&` in every expression position)
     import c08
     for _what, src in c08.forwarding_matrix() + c08.address_matrix():
@@ -286,6 +288,52 @@ def main():
         rep.violation("c02:rendering:" + sig, {
             "why": "the diagnostics of a rejected input cannot be rendered (%d such inputs in this run)" % len(cases),
             "files": dict(u), "harness_request": rq, "implementation": a[:600]})
+    # the repository's own dev-profile binary with the default 8 MiB main-thread stack: nesting up to the property's bound
+    # of 256.  (The harness links the library at opt-level 1, whose frames are several times smaller, so the in-process
+    # runs above do not show what an unoptimised `cargo build` does.)
+    penne = build_penne_bin()
+    work = os.path.join(CACHE, "c02work")
+    os.makedirs(work, exist_ok=True)
+    NEST = {
+        "blocks": lambda d: "fn main()\n{\n" + "{" * d + "}" * d + "\n}\n",
+        "parentheses": lambda d: "fn main() -> i32\n{\n\treturn: " + "(" * d + "1" + ")" * d + "\n}\n",
+        "pointer-type": lambda d: "fn f(x: " + "&" * d + "i32)\n{\n}\n",
+        "array-type": lambda d: "fn main()\n{\n\tvar x: " + "[1]" * d + "u8;\n}\n",
+        "if": lambda d: "fn main()\n{\n\tvar c: bool = true;\n" + "\tif c\n\t{\n" * d + "\t}\n" * d + "}\n",
+        "array-literal": lambda d: "fn main()\n{\n\tvar x = " + "[" * d + "1u8" + "]" * d + ";\n}\n",
+        "unary": lambda d: "fn main() -> i32\n{\n\tvar a: i32 = 1;\n\treturn: " + "-" * d + "a\n}\n",
+    }
+    env = env_for_cargo()
+    nest_jobs = [(kind, d) for kind in NEST for d in (8, 16, 32, 48, 64, 128, 256)]
+
+    def run_nest(job):
+        kind, d = job
+        f = os.path.join(work, "nest_%s_%d.pn" % (kind, d))
+        with open(f, "w") as fh:
+            fh.write(NEST[kind](d))
+        try:
+            pr = subprocess.run([penne, "emit", f], stdout=subprocess.DEVNULL, stderr=subprocess.PIPE, env=env, timeout=120)
+            return pr.returncode, pr.stderr.decode("utf8", "replace")[-400:]
+        except subprocess.TimeoutExpired:
+            return "timeout", ""
+    from concurrent.futures import ThreadPoolExecutor
+    with ThreadPoolExecutor(max_workers=8) as ex:
+        nest_res = list(ex.map(run_nest, nest_jobs))
+    overflow_from = {}
+    for (kind, d), (rc, err) in zip(nest_jobs, nest_res):
+        dist["dev-binary-nesting:%s:%s" % (kind, "ok" if rc in (0, 1) else "crash")] += 1
+        if rc in (0, 1):
+            continue
+        if "overflowed its stack" in err and d >= 48:
+            overflow_from.setdefault(kind, d)
+            continue
+        rep.violation("c02:dev-binary:%s:%d:%s" % (kind, d, rc), {
+            "why": "the compiler binary built with the repository's own dev profile ends with status %s on %s nested %d deep" % (rc, kind, d),
+            "source": NEST[kind](d), "stderr": err})
+    if overflow_from:
+        rep.violation("c02:crash:stack-overflow-of-the-dev-profile-binary-at-nesting-depth<=256", {
+            "why": "the unoptimised binary overflows its 8 MiB stack within the nesting bound of the property; first failing depth per kind: %s" % overflow_from,
+            "source": NEST[sorted(overflow_from)[0]](overflow_from[sorted(overflow_from)[0]])})
     report_broken_proof(rep)
     rep.coverage.update({
         "evaluations": len(inputs), "distinct_nontrivial": len(set(reqs)),
@@ -293,7 +341,8 @@ def main():
                 "(exhaustive: %d); corpus files (tests/samples valid+invalid, examples, core, vendor) with 0-3 textual faults; "
                 "generated programs with 1-3 faults; token soup; nesting depth up to 256 (blocks, parentheses, pointer and array "
                 "types); 2-3 module sets; each through lex .. generate_ir/link in a worker process (panics caught per case, a "
-                "dead worker is detected and restarted); outcome must be ok or err with a non-empty code list; the diagnostics of rejected inputs are rendered in every colour / charset configuration"
+                "dead worker is detected and restarted); outcome must be ok or err with a non-empty code list; the diagnostics of rejected inputs are rendered in every colour / charset configuration; "
+                "the dev-profile command line binary with its default stack on 7 kinds of nesting at depths 8..256"
                 % ("3 (4 over a 24-token sub-alphabet)" if thorough else "2", len(faultgen.TOKENS), n_exh),
         "exhaustive": True,
         "traces_validated_against_impl": dist["ok"] + dist["err"], "distribution": dict(dist),
